@@ -7,7 +7,7 @@ from lib.coqterm import cN, cbool, cbytes, clist, copt, cpair
 
 ID = "C24"
 QUICK_N = 1100
-THOROUGH_N = 12000
+THOROUGH_N = 5500
 SHARD = 150
 COQ_PRELUDE = "From MV Require Import Model.UpstreamAuth.\n"
 RULE = ("12% option strings for parse_upstream_auth (colon in every position, LF before the colon, non-ASCII, astral, lone "
